@@ -7,6 +7,9 @@ T = lambda s: [ord(c) for c in s]  # noqa: E731
 TOK = ["#", "/", ":", "?", "@", "[", "]", "&", "+", ";", "=", "%", "%41", "%2F", " ", "\t", "\x00", "\x7f", "\xa0", " ", "é", "ü",
        "\U0001F600", "℀", "a", "Z", "0", ".", "-", "~", "'", "(", "!", "*", ",", "$", "_", "日本", "́", "​", "﻿", "℡",
        "\x85", "　", "\\", "\"", "<", "|", "^", "`", "{"]
+# the ESCAPE SPELLING of every delimiter as literal (decoded) text, both cases -- a decoded value "a%3Db" must come back as
+# "a%3Db", not "a=b" -- and the line terminators split_url removes
+TOK += ["%%%02X" % ord(c) for c in "#/:?@[]&+;=% "] + ["%%%02x" % ord(c) for c in "#/?&+;="] + ["%25", "%0A", "\n", "\r"]
 HOSTS = ["example.com", "bücher.example", "1.2.3.4", "::1", "fe80::1%eth0", "2001:db8::1", "h", "日本.jp", "EXAMPLE.Com", "a_b", "h.",
          # hosts only the IDNA-2003 codec (the library's fallback) accepts: symbols, an underscore next to an IDN label
          "☃.net", "😀.example", "_srv.хост.домен", "a_b.münchen.de", "хост_1.домен", "Bücher.EXAMPLE", "straße.de"]
@@ -34,7 +37,12 @@ def step(rnd, scheme):
 
 
 def txt(rnd, n=3):
-    return "".join(rnd.choice(TOK) for _ in range(rnd.randrange(0, n + 1)))
+    s = "".join(rnd.choice(TOK) for _ in range(rnd.randrange(0, n + 1)))
+    if rnd.random() < 0.06:      # a plain word (what a "nothing to quote" fast path is written for) with one terminator at an end
+        w = rnd.choice(["v1", "a", "x-y_z~0", "Index", "42", "日本"])
+        nl = rnd.choice(["\n", "\r", "\x0b", "\u2028", "\x85", "\t"])
+        s = w + nl if rnd.random() < 0.7 else nl + w
+    return s
 
 
 def gen(params):
